@@ -23,8 +23,9 @@ type task struct {
 	ch           chan struct{}
 	site         string
 	spawn        int
-	until        int  // fault actors: not eligible before this step (0 = always eligible)
-	waiter       bool // parked in WaitStep
+	pinned       int32 // Pin depth
+	until        int   // fault actors: not eligible before this step (0 = always eligible)
+	waiter       bool  // parked in WaitStep
 	prio         int64
 	hasPrio      bool
 	stagnant     bool // the task has revisited (task,site) pairs several times in a row: it is polling
@@ -368,6 +369,31 @@ func Yield(site string) {
 	raceEnable()
 }
 
+// Pin makes the calling task the only one the scheduler runs until the returned function is called (while it is
+// able to run). For resources whose real implementation blocks other users on a lock the simulator
+// cannot see (an open sqlite transaction): the others could not have made progress there anyway.
+//
+//go:norace
+func Pin() (unpin func()) {
+	s := cur.Load()
+	if s == nil {
+		return func() {}
+	}
+	raceDisable()
+	t := s.self()
+	raceEnable()
+	if t == nil {
+		return func() {}
+	}
+	atomic.AddInt32(&t.pinned, 1)
+	var once int32
+	return func() {
+		if atomic.CompareAndSwapInt32(&once, 0, 1) {
+			atomic.AddInt32(&t.pinned, -1)
+		}
+	}
+}
+
 // WaitStep parks the calling task (a fault actor of the harness) until the
 // scheduler has taken at least k decisions, or until nothing else can run.
 //
@@ -599,6 +625,17 @@ func (s *Sim) Run(root func()) (verdict Verdict) {
 				continue
 			}
 			s.cands = append(s.cands, t)
+		}
+		// pinned tasks (Pin): while one of them can run, nobody else does
+		np := 0
+		for _, t := range s.cands {
+			if atomic.LoadInt32(&t.pinned) > 0 {
+				s.cands[np] = t
+				np++
+			}
+		}
+		if np > 0 {
+			s.cands = s.cands[:np]
 		}
 		n := len(s.cands)
 		if len(s.parked) > s.MaxTasks {
